@@ -8,13 +8,25 @@ import AdfObdd.TTSpec
 import AdfObdd.TTDepthPaths
 import AdfObdd.CountsWord
 import AdfObdd.CubesExact
+import AdfObdd.PathsWord
 /-! # C13 — counts, depth, supports and path cubes of a diagram are exact
 
 Model: `countF` (= `modelcount_naive`: counter-models, models, depth), `pathsF`, `depsF`
 (= the recursive `var_dependencies`), `cubesF` (= `Bdd::interpretations`), `passive` / `active`
 (the two impact measures), `moreModels` (repaired, D4) — all on the proved store. Stated over
 `Nat` (the code's `usize` arithmetic overflows for depth ≥ 64; the tie to the code is exercised on
-diagrams of depth ≤ 63). -/
+diagrams of depth ≤ 63); the word-level statements are `count_word_exact` (model counts, depth
+≤ 64, sharp) and `paths_word_exact` / `more_models_paths_word_iff` (path counts, total < 2^64,
+in particular depth ≤ 63).
+
+**Noted exception to the property text (second review, C13 row 1).** The property says the path
+cubes of EVERY diagram are pairwise disjoint and cover exactly its (counter-)models. For the two
+terminal diagrams this is FALSE of the code and of the model: `interpretations` returns the empty
+list for ⊤ and ⊥, so the (empty) cube list of ⊤ covers none of ⊤'s models although every
+assignment is one (likewise the counter-models of ⊥). `cubes_exact` therefore states the cover
+clause for non-terminal handles only and the emptiness for terminals as a separate conjunct;
+`cubes_terminal_not_cover` states the deviation itself. Disjointness and soundness hold for every
+handle (vacuously on terminals). -/
 namespace C13
 
 /-- model count: `models(t) · 2^|vs| = #{satisfying assignments to vs} · 2^depth(t)` for every
@@ -95,6 +107,18 @@ theorem cubes_exact (s : Store) (w : WF s) (t : Nat) (goal : Bool) (gv : Nat) (h
     · exact cubes_do_cover s w t goal gv ht ht2 σ hgv
     · intro ⟨c, hc, hin⟩
       exact cubes_are_sound s w t goal gv ht c σ hc hin
+
+/-- **the deviation from "every diagram … cover exactly"**: on every store, for the terminal ⊤
+every assignment is a model and for ⊥ every assignment is a counter-model, yet no assignment is
+covered by a cube of `interpretations(⊤, true, gv)` resp. `interpretations(⊥, false, gv)` — the
+cover clause FAILS for terminals (for the opposite goals, `(⊤, false)` and `(⊥, true)`, there is
+nothing to cover and the empty list is exact) -/
+theorem cubes_terminal_not_cover (s : Store) (gv : Nat) (σ : Asg) :
+    (eval s 1 σ = true ∧ ¬ ∃ c ∈ cubesF s 2 1 true gv [] [], InPC c σ) ∧
+    (eval s 0 σ = false ∧ ¬ ∃ c ∈ cubesF s 1 0 false gv [] [], InPC c σ) := by
+  refine ⟨⟨eval_one s σ, ?_⟩, ⟨eval_zero s σ, ?_⟩⟩
+  · rw [cubes_terminal s 1 true gv (by decide)]; simp
+  · rw [cubes_terminal s 0 false gv (by decide)]; simp
 
 /-- 'more models than counter-models' (`ModelCounts::more_models`, repaired body D4) applied to
 the MODEL counts of a diagram is true iff at least as many assignments (to any strictly ascending
@@ -438,6 +462,32 @@ theorem more_models_paths_iff (s : Store) (w : WF s) (t : Nat) :
   rw [← h1, ← h2]
   simp [moreModels]
 
+/-- path counts at word level: `pathsW` is `pathsF` with every addition wrapped to 64 bits (what a
+release build of `modelcount_naive`'s path components / the ad-hoc bookkeeping computes). If the
+total number of root-to-leaf paths fits a word the two agree (no hypothesis on the store:
+sub-diagrams' counts are summands); a diagram of depth ≤ 63 has at most `2^63` paths, so the bound
+holds there -/
+theorem paths_word_exact (s : Store) (t : Nat) :
+    ((paths s t).1 + (paths s t).2 < 2 ^ 64 → pathsW s (t+1) t = paths s t) ∧
+    ((countF s (t+1) t).2.2 ≤ 63 → pathsW s (t+1) t = paths s t) ∧
+    (paths s t).1 + (paths s t).2 ≤ 2 ^ (countF s (t+1) t).2.2 :=
+  ⟨pathsW_eq_pathsF s (t+1) t, pathsW_eq_of_depth s (t+1) t, paths_le_pow_depth s (t+1) t⟩
+
+/-- `more_models` on the PATH counts as the 64-bit code computes them (the variant the counting
+heuristics and the counting-guided search use): under the bound — total path count below `2^64`,
+e.g. depth ≤ 63 — it is true iff at least as many root-to-leaf paths end in ⊤ as in ⊥. Beyond the
+bound nothing is claimed (sums wrap; cf. `counts_overflow_at_65` for the model counts) -/
+theorem more_models_paths_word_iff (s : Store) (w : WF s) (t : Nat)
+    (hb : (paths s t).1 + (paths s t).2 < 2 ^ 64 ∨ (countF s (t+1) t).2.2 ≤ 63) :
+    moreModels (pathsW s (t+1) t) = true ↔
+      (pathsList s (t+1) t).countP (fun p => p.2) ≥ (pathsList s (t+1) t).countP (fun p => !p.2) := by
+  have e : pathsW s (t+1) t = paths s t := by
+    rcases hb with hb | hb
+    · exact (paths_word_exact s t).1 hb
+    · exact (paths_word_exact s t).2.1 hb
+  rw [e]
+  exact more_models_paths_iff s w t
+
 /-- … and on a diagram of at most 64 levels the same holds for the numbers the 64-bit code
 computes (`countW`, see the last section) -/
 theorem more_models_word_iff (s : Store) (w : WF s) (t : Nat) (ht : t < s.nodes.size)
@@ -476,6 +526,17 @@ example : cubesF and01Store 1 0 false 5 [] [] = [] ∧ (∀ σ, eval and01Store 
   ⟨(cubes_exact and01Store and01Store_WF 0 false 5 (by simp [and01Store_nodes])).2.2.2 (by decide),
    fun σ => eval_zero _ σ⟩
 
+/-- non-vacuity of the word-level path statements: x0 ∧ x1 has depth 2 ≤ 63, two paths to ⊥ and
+one to ⊤, the 64-bit recursion returns the same, and `more_models` on them is false -/
+example : (countF and01Store 4 3).2.2 ≤ 63 ∧ pathsW and01Store 4 3 = (2, 1) ∧ paths and01Store 3 = (2, 1) ∧
+    moreModels (pathsW and01Store 4 3) = false := by
+  have hc : countF and01Store 4 3 = (3, 1, 2) := by simp [countF, and01Store_nodes]
+  have hp : paths and01Store 3 = (2, 1) := by simp [paths, pathsF, and01Store_nodes]
+  have hw : pathsW and01Store 4 3 = (2, 1) := by
+    rw [(paths_word_exact and01Store 3).2.1 (by rw [hc]; decide), hp]
+  refine ⟨by rw [hc]; decide, hw, hp, ?_⟩
+  rw [hw]; decide
+
 /-- non-vacuity of the impact theorems: over the list `[3, 2]` (statement 0 has condition
 x0 ∧ x1, statement 1 has condition x1) the hypotheses hold, passive impact of variable 1 is 2,
 of variable 0 is 1, active impact of statement 0 is 2 and of statement 1 is 1 -/
@@ -506,3 +567,6 @@ end C13
 #print axioms C13.more_models_iff
 #print axioms C13.more_models_paths_iff
 #print axioms C13.more_models_word_iff
+#print axioms C13.cubes_terminal_not_cover
+#print axioms C13.paths_word_exact
+#print axioms C13.more_models_paths_word_iff
